@@ -534,7 +534,8 @@ func verifLemmaTamperEvident(a, b *Entry, identity identityprovider.Interface, i
 //@   requires fetcherOK(deref(f)) && deref(queue) != nil && typeis(deref(queue), "*priorityQueue") && ref(deref(queue)) != nil
 //@   requires [the-requested-hash-is-wanted] wanted(deref(f), hash)
 //@   requires deref(f).progressChan == nil || !closed(deref(f).progressChan)
-//@   modifies chanof(deref(f).progressChan), mapof(deref(f).tasksCache), qHas[ref(deref(queue))], qLen[ref(deref(queue))], cell(results), cell(taskInProgress), deref(f).maxClock, deref(f).minClock
+//@   ensures [the-worker-gives-its-fetch-slot-back-exactly-once] slotsReleased == old(slotsReleased) + 1
+//@   modifies slotsReleased, chanof(deref(f).progressChan), mapof(deref(f).tasksCache), qHas[ref(deref(queue))], qLen[ref(deref(queue))], cell(results), cell(taskInProgress), deref(f).maxClock, deref(f).minClock
 //@ @mon monitorenter "f.muProcess.Lock()" modifies mapof(f.tasksCache), qHas[ref(deref(queue))], qLen[ref(deref(queue))], cell(results), cell(taskInProgress), f.maxClock, f.minClock assume monitorInv(f, deref(queue), deref(results))
 //@ @mon assert "f.tasksCache[entryHash] = taskKindDone" [the-completed-hash-is-the-requested-one] entryHash == hash && wanted(f, entryHash)
 //@ @mon assert "f.tasksCache[entryHash] = taskKindDone" [cache-stays-consistent-after-completion] cacheOK(f)
@@ -581,3 +582,8 @@ func verifLemmaTamperEvident(a, b *Entry, identity identityprovider.Interface, i
 //@ @mon ensures [no-entry-is-returned-twice] forall i int, j int :: 0 <= i && i < j && j < len(result) ==> result[i].Hash != result[j].Hash
 //@ @mon ensures [every-result-was-registered-and-completed] forall i int :: 0 <= i && i < len(result) ==> validEntry(result[i]) && has(f.tasksCache, result[i].Hash) && f.tasksCache[result[i].Hash] == taskDone() && wanted(f, result[i].Hash)
 //@ @mon ensures [every-link-of-a-result-was-considered] linksKnown(f, result)
+
+//@ func (*Fetcher).processDone
+//@   requires f != nil && f.sem != nil
+//@   modifies slotsReleased
+//@   ensures [one-slot-is-released] slotsReleased == old(slotsReleased) + 1
